@@ -401,6 +401,7 @@ func Run(tier string, seed int64, outDir string) *common.Meta {
 	// ---------- 4. end to end: the constructor really uses the flag value ----------
 	evals += endToEnd(meta, outDir, src.String(), cons)
 	evals += crossArch(meta, outDir)
+	evals += ruleguardIntegrator(meta, outDir)
 
 	meta.Evaluations = evals
 	meta.Distinct = len(distinct)
